@@ -166,6 +166,8 @@ func (v *FnVC) encodeInstr(ins ssa.Instruction) {
 		st.alloc = v.define("alloc", "Int", fmt.Sprintf("(+ %s 1)", r))
 		k := v.regKey("CH:len", "(Array Int Int)")
 		v.heapSet(st, k, fmt.Sprintf("(store %s %s 0)", v.heapGet(st, k), r))
+		kc := v.regKey("CH:closed", "(Array Int Bool)")
+		v.heapSet(st, kc, fmt.Sprintf("(store %s %s false)", v.heapGet(st, kc), r))
 		v.S.declFun("chan_cap", "(Int) Int")
 		v.asserts = append(v.asserts, fmt.Sprintf("(= (chan_cap %s) %s)", r, v.val(i.Size).S))
 		v.setVal(i, r)
@@ -207,6 +209,12 @@ func (v *FnVC) encodeInstr(ins ssa.Instruction) {
 		k := v.regKey("CH:len", "(Array Int Int)")
 		v.S.declFun("chan_cap", "(Int) Int")
 		h := v.heapGet(st, k)
+		v.panicCheck("send", fmt.Sprintf("(not (select %s %s))", v.heapGet(st, v.regKey("CH:closed", "(Array Int Bool)")), c.S), "send on closed channel", i.Pos())
+		if v.C != nil && v.C.ChanNonNil {
+			if sv := v.val(i.X); sv.Sort == "Iface" {
+				v.oblige("chan-nonnil", fmt.Sprintf("(not (= (itag %s) 0))", sv.S), "value sent on a channel is a non-nil interface value (channel invariant)", i.Pos())
+			}
+		}
 		// a send on a buffered channel blocks until there is room: it completes only when len < cap (A-go)
 		v.narrow(fmt.Sprintf("(or (<= (chan_cap %s) 0) (< (select %s %s) (chan_cap %s)))", c.S, h, c.S, c.S))
 		v.heapSet(st, k, fmt.Sprintf("(store %s %s (+ (select %s %s) 1))", h, c.S, h, c.S))
@@ -345,6 +353,7 @@ func (v *FnVC) encodeUnOp(i *ssa.UnOp) {
 		if l.Opaque != "" {
 			v.panicCheck("nil", fmt.Sprintf("(not (= %s 0))", l.Opaque), "nil pointer dereference", i.Pos())
 		}
+		v.checkLoadGuards(i)
 		t := v.load(st, l)
 		nt := v.setVal(i, t.S)
 		v.assumeWF(nt)
@@ -369,6 +378,9 @@ func (v *FnVC) encodeUnOp(i *ssa.UnOp) {
 		el := i.X.Type().Underlying().(*types.Chan).Elem()
 		got := v.havocVal(i.Name(), el)
 		okc := v.freshConst("recvok", "Bool")
+		if v.C != nil && v.C.ChanNonNil && got.Sort == "Iface" {
+			v.asserts = append(v.asserts, fmt.Sprintf("(=> %s (not (= (itag %s) 0)))", okc, got.S))
+		}
 		// a successful receive removes one element (when buffered); closed+empty gives zero,false
 		v.heapSet(st, k, fmt.Sprintf("(store %s %s (ite %s (- (select %s %s) 1) (select %s %s)))", h, c.S, okc, h, c.S, h, c.S))
 		v.S.declFun("chan_fired", "(Int) Bool")
@@ -831,7 +843,11 @@ func (v *FnVC) encodeSelect(i *ssa.Select) {
 	recvOk := v.freshConst("recvok", "Bool")
 	res := []Term{intT(idx), boolT(recvOk)}
 	for k := 2; k < tup.Len(); k++ {
-		res = append(res, v.havocVal("selrecv", tup.At(k).Type()))
+		rv := v.havocVal("selrecv", tup.At(k).Type())
+		if v.C != nil && v.C.ChanNonNil && rv.Sort == "Iface" {
+			v.asserts = append(v.asserts, fmt.Sprintf("(=> %s (not (= (itag %s) 0)))", recvOk, rv.S))
+		}
+		res = append(res, rv)
 	}
 	v.tuples[i] = res
 	st := v.cur
@@ -845,6 +861,13 @@ func (v *FnVC) encodeSelect(i *ssa.Select) {
 		ln := fmt.Sprintf("(select %s %s)", h, c.S)
 		buffered := fmt.Sprintf("(> (chan_cap %s) 0)", c.S)
 		if s.Dir == types.SendOnly {
+			if v.C != nil && v.C.ChanNonNil {
+				if sv := v.val(s.Send); sv.Sort == "Iface" {
+					v.oblige("chan-nonnil", fmt.Sprintf("(=> (= %s %d) (not (= (itag %s) 0)))", idx, k, sv.S), "value sent on a channel is a non-nil interface value (channel invariant)", i.Pos())
+				}
+			}
+			// a send case on a closed channel is ready and panics when chosen
+			v.panicCheck("send", fmt.Sprintf("(=> (= %s %d) (not (select %s %s)))", idx, k, v.heapGet(st, v.regKey("CH:closed", "(Array Int Bool)")), c.S), "send on closed channel (select case)", i.Pos())
 			// chosen send: there was room
 			v.narrow(fmt.Sprintf("(=> (and (= %s %d) %s) (< %s (chan_cap %s)))", idx, k, buffered, ln, c.S))
 			nh = fmt.Sprintf("(ite (= %s %d) (store %s %s (+ %s 1)) %s)", idx, k, h, c.S, ln, nh)
